@@ -193,6 +193,7 @@ def pool_spec(fam, which, seed):
             ("TFa2", "TF", A, [(F("1^", "3"), 0.25), (F("0^", "0"), 2.0)]),
             ("TF2", "TF", (None, None, None), [(F("2^", "0"), 2.0), ((), -1.5)]),
             ("TFb", "TF", (6, 2, 0), [(F("1^", "3"), 1.0)]),
+            ("TFe", "TF", (None, None, None), []),          # empty operator (additive identity, start value of accumulations)
         ]
         ops = full if which == "full" else full[:4]
     else:
@@ -206,6 +207,8 @@ def pool_spec(fam, which, seed):
             ("QHbk", "QH", ("BK", True), [(word_to_term("ZI"), 1.5)]),
             ("TQ2", "TQ", None, [(word_to_term("IY"), 2.0), ((), 0.5)]),
             ("QHjwT", "QH", ("JW", True), [(word_to_term("XY"), 1.5), (word_to_term("ZI"), 1j)]),   # = QHjw up to ordering flag
+            ("QHe", "QH", ("JW", False), []),               # empty annotated Hamiltonian (start value of accumulations)
+            ("TQe", "TQ", None, []),                        # empty plain operator
         ]
         ops = full if which == "full" else full[:4]
     scal = list(SCALARS) if which == "full" else ["S2", "S1j", "S0"]
@@ -215,6 +218,12 @@ def pool_spec(fam, which, seed):
 def build_operand(spec):
     name, tag, ann, terms = spec
     C = classes()[tag]
+    if not terms:
+        if tag == "TF":
+            return C(n_spinorbitals=ann[0], n_electrons=ann[1], spin=ann[2])
+        if tag == "QH":
+            return C(mapping=ann[0], up_then_down=ann[1])
+        return C()
     (t0, c0) = terms[0]
     if tag == "TF":
         o = C(t0, c0, n_spinorbitals=ann[0], n_electrons=ann[1], spin=ann[2])
@@ -624,7 +633,10 @@ def script_for(ctx, hist):
             kw = f", n_spinorbitals={ann[0]}, n_electrons={ann[1]}, spin={ann[2]}"
         if tag == "QH" and ann != (None, None):
             kw = f", mapping={ann[0]!r}, up_then_down={ann[1]}"
-        line = f"{name} = {ctor[tag]}({terms[0][0]!r}, {terms[0][1]!r}{kw})"
+        if terms:
+            line = f"{name} = {ctor[tag]}({terms[0][0]!r}, {terms[0][1]!r}{kw})"
+        else:
+            line = f"{name} = {ctor[tag]}({kw[2:]})"
         for t, c in terms[1:]:
             line += f"; {name}.terms[{t!r}] = {c!r}"
         head.append(line)
@@ -888,6 +900,29 @@ def check_commute(case, acc):
             mf_fail(acc, case, f"MultiformOperator.compress/raises-{type(e).__name__}", shape_sig(case), {"exception": repr(e)[:300]})
             e.__traceback__ = None
             return
+    elif case.get("prep") == "remove":
+        # history: each operand was created with one more term, which was then taken out with remove_terms (int index at the
+        # front for a, list index at the end for b): every array attribute must follow
+        def extra_for(desc):
+            have = {w for w, _ in desc}
+            for cand in ("Y" + "I" * (n - 1), "X" + "Z" * (n - 1), "Z" + "Y" * (n - 1), "Y" * n, "I" * (n - 1) + "X"):
+                if cand not in have:
+                    return cand
+            raise RuntimeError("no extra word available")
+        try:
+            a = mk_mf([[extra_for(case["a"]), [0.75, 0.0]]] + list(case["a"]), n)
+            a.remove_terms(0)
+            b = mk_mf(list(case["b"]) + [[extra_for(case["b"]), [0.0, -1.25]]], n)
+            b.remove_terms([len(case["b"])])
+        except Exception as e:
+            mf_fail(acc, case, f"MultiformOperator.remove_terms/raises-{type(e).__name__}", shape_sig(case), {"exception": repr(e)[:300]})
+            e.__traceback__ = None
+            return
+        acc.ev()
+        if ref_diff(dict(a.terms), ref_of_desc(case["a"]))[0] > 1e-12 or ref_diff(dict(b.terms), ref_of_desc(case["b"]))[0] > 1e-12:
+            mf_fail(acc, case, "MultiformOperator.remove_terms/terms-wrong", shape_sig(case),
+                    {"a.terms": jterms(dict(a.terms)), "b.terms": jterms(dict(b.terms))})
+            return
     else:
         a, b = mk_mf(case["a"], n), mk_mf(case["b"], n)
     sa, sb = mf_snap(a), mf_snap(b)
@@ -1004,6 +1039,8 @@ def run_shard(sh):
             if kind == "mf_commute" and sh.get("resize"):
                 acc.transitions += 3
                 MF_CHECK[kind](dict(case, prep="resize"), acc)
+                acc.transitions += 2
+                MF_CHECK[kind](dict(case, prep="remove"), acc)
             if ia == p and len(acc.samples) < 1:
                 acc.sample(case, cap=1)
     return acc
